@@ -1,7 +1,8 @@
 (* M7 / C18: the import-line computation of the SQLAlchemy and SQLModel exporters.
    Every HashSet that the Rust code *iterates* is a list without duplicates whose iteration order is
    chosen by an arbitrary permutation oracle [pi : list string -> list string]; the theorems quantify
-   over all oracles with [Permutation (pi l) l].  No proofs here. *)
+   over all oracles with [Permutation (pi l) l].  Both exporters sort every collected set before use
+   (since fix 44cb6cb also the datetime names).  No proofs here. *)
 From VV.M1 Require Export Schema.
 
 (* ---------- HashSet<&str> as an insertion log ---------- *)
@@ -79,9 +80,10 @@ Definition needs_uuid (t : table_def) : bool := existsb (fun c => is_uuid_type (
 Definition needs_decimal (t : table_def) : bool := existsb (fun c => is_numeric_type (c_type c)) (t_columns t).
 Definition has_enums (t : table_def) : bool := existsb (fun c => is_enum_type (c_type c)) (t_columns t).
 
-(* the "from datetime import ..." line (sqlalchemy 183-189, sqlmodel 119-125): iterated, NOT sorted *)
+(* the "from datetime import ..." line (sqlalchemy 183-190, sqlmodel 119-126): iterated, then sorted
+   (`datetime_imports.sort()`, fix 44cb6cb) *)
 Definition datetime_line (pi : list string -> list string) (t : table_def) : list string :=
-  match hs_iter pi (dt_inserts t) with
+  match sort_str (hs_iter pi (dt_inserts t)) with
   | [] => []
   | l => ["from datetime import " +++ join ", " l]
   end.
@@ -97,16 +99,6 @@ Definition sqlalchemy_imports (pi_sa pi_dt : list string -> list string) (t : ta
   ["from __future__ import annotations"]
   ++ opt_line (has_enums t) "import enum"
   ++ datetime_line pi_dt t
-  ++ opt_line (needs_decimal t) "from decimal import Decimal"
-  ++ opt_line (needs_optional t) "from typing import Optional"
-  ++ opt_line (needs_uuid t) "from uuid import UUID"
-  ++ [sa_line pi_sa t]
-  ++ ["from sqlalchemy.orm import DeclarativeBase, Mapped, mapped_column"].
-
-(* the part of the block that does not go through an unsorted iteration *)
-Definition sqlalchemy_imports_sorted_part (pi_sa : list string -> list string) (t : table_def) : list string :=
-  ["from __future__ import annotations"]
-  ++ opt_line (has_enums t) "import enum"
   ++ opt_line (needs_decimal t) "from decimal import Decimal"
   ++ opt_line (needs_optional t) "from typing import Optional"
   ++ opt_line (needs_uuid t) "from uuid import UUID"
@@ -132,8 +124,8 @@ Definition sqlmodel_imports (pi_dt : list string -> list string) (t : table_def)
   ++ ["from sqlmodel import Field, SQLModel"]
   ++ sqlmodel_sa_line t.
 
-(* ---------- classifier of the known finding D5 (C18) ----------
-   the datetime line can differ between runs iff at least two distinct names are in the set *)
+(* ---------- class of the former finding C18-datetime-import-order (D5, fixed by 44cb6cb) ----------
+   kept for coverage statistics only (a fixed finding suppresses nothing): at least two distinct names in the set *)
 Definition known_C18_datetime (t : table_def) : bool :=
   Nat.ltb 1 (List.length (hs_of_inserts (dt_inserts t) [])).
 
@@ -145,18 +137,7 @@ Definition hs_len (pi : list string -> list string) (s : list string) : nat := L
 Definition hm_get {V} (pi : list (string * V) -> list (string * V)) (m : list (string * V)) (k : string) : option V :=
   bt_get k (pi m).
 
-(* ---------- correspondence helper: compare an implementation import block with the model up to the
-   order inside the datetime line (the only place HashSites marks iterated-unsorted) ---------- *)
-Definition names_of_import (prefix line : string) : option (list string) :=
-  if starts_with prefix line
-  then Some (sort_str (map trim (split_on ","%char (substring (String.length prefix)
-                                                      (String.length line - String.length prefix) line))))
-  else None.
-Definition import_line_eqb (a b : string) : bool :=
-  match names_of_import "from datetime import " a, names_of_import "from datetime import " b with
-  | Some x, Some y => list_eqb String.eqb x y
-  | None, None => String.eqb a b
-  | _, _ => false
-  end.
+(* ---------- correspondence: every import line is compared as text, order of the names included ---------- *)
+Definition import_line_eqb (a b : string) : bool := String.eqb a b.
 Definition id_oracle (l : list string) : list string := l.
 Definition rev_oracle (l : list string) : list string := rev l.
